@@ -340,6 +340,19 @@ pub fn handle_job(job: &Value) -> Value {
             let prefs: PrefSpec = serde_json::from_value(job["prefs"].clone()).unwrap_or_default();
             run_factor(&n, job["algo"].as_str().unwrap_or(""), &prefs)
         }
+        Some("diagnose") => {
+            let Some(n) = job["n"].as_str().and_then(crate::ser::from_dec::<16>) else {
+                return json!({"r": "bad-job", "msg": "n"});
+            };
+            let spec: PrefSpec = serde_json::from_value(job["prefs"].clone()).unwrap_or_default();
+            let Some(algo) = parse_algo(job["algo"].as_str().unwrap_or("")) else {
+                return json!({"r": "bad-job", "msg": "algo"});
+            };
+            let polls = Arc::new(AtomicU64::new(0));
+            let first_true = Arc::new(Mutex::new(None));
+            let prefs = build_prefs(&spec, &polls, &first_true);
+            crate::props::c04_orders::diagnose(&n, algo, &prefs)
+        }
         Some("range") => {
             // exhaustive sweep of small n, judged in the worker with the reference factorisation
             let lo = job["lo"].as_u64().unwrap_or(0);
